@@ -34,7 +34,10 @@ type Inproc struct {
 	Posts []string
 	// GetBodies are the bodies answered to GET requests, in order.
 	GetBodies []string
-	never     chan struct{}
+	// RespLatency: the answer to a GET (long poll) reaches the client this much virtual time after the
+	// server wrote it (packets in flight towards the client).
+	RespLatency time.Duration
+	never       chan struct{}
 }
 
 var ErrRefused = errors.New("inproc: connection refused")
@@ -78,6 +81,11 @@ func (t *Inproc) RoundTrip(r *http.Request) (*http.Response, error) {
 	}
 	res := rec.Result()
 	if r.Method == "GET" {
+		var lat time.Duration
+		t.V.Do(func() { lat = t.RespLatency })
+		if lat > 0 {
+			vsched.Sleep(lat)
+		}
 		b, _ := io.ReadAll(res.Body)
 		res.Body = io.NopCloser(bytes.NewReader(b))
 		t.V.Do(func() { t.GetBodies = append(t.GetBodies, string(b)) })
